@@ -700,12 +700,17 @@ func (d *Director) Stale(a *Actor, tooOld bool) {
 		class = "nonce older than the freshness window"
 	}
 	endpoint := signedNodeEndpoints[d.choose("stale.endpoint", 3)]
+	args := a.Signed(endpoint, nonce, d.legitParams(endpoint, a))
+	if old := d.lastOld[a.ID]; old != nil && d.choose("stale.oldformat", 2) == 1 {
+		// a captured keep-alive in the deprecated signature format, replayed verbatim
+		endpoint, args, class = "vipnode_update", old, "replayed old-format keep-alive"
+	}
 	op := fmt.Sprintf("#%d stale %s (%s) by %s", d.n, endpoint, class, a.Name)
 	before := w.Digest()
 	ctx, cancel := d.ctx()
 	defer cancel()
 	var res json.RawMessage
-	err := a.Call(ctx, &res, endpoint, a.Signed(endpoint, nonce, d.legitParams(endpoint, a))...)
+	err := a.Call(ctx, &res, endpoint, args...)
 	d.logf("%s -> %v", op, err)
 	if err == nil {
 		d.bad("C05", "at_most_once", "request with a "+class+" honoured: "+endpoint, "%s: accepted", op)
